@@ -129,4 +129,35 @@ theorem splitLines_append_nl : ∀ (s₁ s₂ : List Char) (c : Char), s₁.getL
         | nil => exact absurd hsl (splitLines_ne_nil y rest)
         | cons l ls => simp [consHead]
 
+/-! ## What an emitted statement satisfies -/
+
+theorem finishLine_emit (eq e : List Char) (h : finishLine eq = .emit e) :
+    e = eq ∧ eqSearch eq = true ∧ strip eq ≠ [] := by
+  unfold finishLine completeStmt at h
+  split at h
+  · cases h
+  · rename_i e' hc
+    split at hc
+    · cases hc
+    · rename_i hs
+      split at hc
+      · rename_i hq
+        simp at hc; simp at h; subst hc; subst h
+        exact ⟨rfl, hq, by simpa using hs⟩
+      · split at hc <;> cases hc
+  · cases h
+
+theorem lineStep_emit (st : SplitState) (raw e : List Char) (h : lineStep st raw = .emit e) :
+    eqSearch e = true ∧ strip e ≠ [] := by
+  unfold lineStep lineStepS at h
+  split at h
+  · cases h
+  · unfold countLine at h
+    split at h
+    · cases h
+    · split at h
+      · have := finishLine_emit _ e h
+        rw [this.1]; exact ⟨this.2.1, this.2.2⟩
+      · cases h
+
 end Fsic.Lx
